@@ -237,6 +237,8 @@ impl Search {
 
             self.board.make_move(mv);
             self.info.nodes += 1;
+            #[cfg(rce_verif)]
+            crate::verif_hooks::audit_move(&self.board, &mv);
 
             let mut score;
             self.info.depth += 1;
@@ -398,6 +400,8 @@ impl Search {
         }
 
         if depth == 0 {
+            #[cfg(rce_verif)]
+            crate::verif_hooks::audit_horizon(&self.board);
             return self.quiescence(evaluator, alpha, beta, start);
         }
 
@@ -415,6 +419,8 @@ impl Search {
 
             self.board.make_move(mv);
             self.info.nodes += 1;
+            #[cfg(rce_verif)]
+            crate::verif_hooks::audit_move(&self.board, &mv);
 
             let mut score;
             self.info.depth += 1;
@@ -568,6 +574,8 @@ impl Search {
 
             self.board.make_move(mv);
             self.info.nodes += 1;
+            #[cfg(rce_verif)]
+            crate::verif_hooks::audit_move(&self.board, &mv);
 
             self.info.depth += 1;
             self.info.seldepth = self.info.seldepth.max(self.info.depth);
